@@ -168,6 +168,9 @@ S_CREPACK = [dict(s1=2000, z1=300, f0=True, f1=False), dict(s1=66000, z1=1900, f
 S_CDIRECT = [dict(s1=66000, z1=300, target=70000, read_twice=True), dict(s1=66000, z1=300, target=320, read_twice=False)]
 _CM = ('yes', 'no', 'keep', 'auto300', 'auto1800', 'true', 'false')
 CPACK = [cell('cpack_check_%s_%s' % (m, f), 'harness.g_comp', 'cpack_check_%s_%s' % (m, f), (500, 1500),
+              # the real compressed lengths and the order in which the real key set is traversed differ from the model's:
+              # the replay also tries nearby pack targets and two sizes of the big object
+              replay_sweep={'target': list(range(1, 80)), 's1': [40, 66000]},
               samples=[dict(target=2500), dict(target=3)] if m.startswith('auto') else S_COMP,
               bounds=B_COMP + 'pack_all_loose(compress=%s) next to a %s packed object; symbolic pack target' % (m, 'compressed' if f == 'z' else 'plain'))
          for m in _CM for f in ('z', 'p')]
@@ -275,12 +278,19 @@ PACKID = [cell('packid_e%d_k%s' % (e, k), 'harness.h_cfg', 'packid_e%d_k%s' % (e
 BULK_PACK = [cell('bulk_pack', 'harness.h_cfg', 'bulk_pack', (400, 1200),
                   bounds='pack_all_loose + clean_storage with _IN_SQL_MAX_LENGTH in [1,2] and _MAX_CHUNK_ITERATE_LENGTH in [0,3] (both lookup strategies), sizes in [1,1000]',
                   samples=[dict(s0=5, s1=7, s2=9, in_max=1, chunk_max=0, clean=True), dict(s0=5, s1=7, s2=9, in_max=2, chunk_max=3, clean=False)])]
+SINGLE = [cell('single_pack', 'harness.h_direct', 'single_pack', (400, 1200),
+               bounds='add_streamed_object_to_pack (single-object wrapper through CallbackStreamWrapper): known and new content, no_holes / no_holes_read_twice / compress / callback symbolic, sizes in [1,70000], symbolic pack target',
+               samples=[dict(s0=66000, s1=5, target=100, no_holes=True, read_twice=False, compress=True, cb=True),
+                        dict(s0=5, s1=66000, target=100000, no_holes=False, read_twice=True, compress=False, cb=False)])]
+DIRECT_SHORT = [cell('direct_short', 'harness.h_direct', 'direct_short', (500, 1500),
+                     bounds='add_streamed_objects_to_pack from a stream whose first read is short by a symbolic amount; sizes in [1,70000]; no_holes, no_holes_read_twice, pack target symbolic',
+                     samples=[dict(s1=5, s2=66000, cut=4096, target=100, no_holes=True, read_twice=True), dict(s1=5, s2=9, cut=1, target=70000, no_holes=False, read_twice=False)])]
 INIT = [cell('init_refused', 'harness.h_cfg', 'init_refused', (300, 900), bounds='init_container on an initialised container (symbolic arguments) raises and changes nothing; init on an empty folder gives an empty valid container',
              samples=[dict(s0=5, clear=False, target=100, prefix=2)])]
 
 CHECKS = {
     'C01': dict(
-        cells=PACK_VIEWS + DIRECT_VIEWS + LOOSE_VIEWS + PACK_REACH + DIRECT_REACH + CPACK_YES + CDIRECT + CFG,
+        cells=PACK_VIEWS + DIRECT_VIEWS + LOOSE_VIEWS + PACK_REACH + DIRECT_REACH + CPACK_YES + CDIRECT + CFG + SINGLE + DIRECT_SHORT,
         functions=F_WRITE + F_READ + F_COMP,
         assumptions=['write paths covered: loose from bytes and from a stream (incl. a short first read), direct to pack '
                      '(batch, with duplicates, no_holes variants, compress=True), pack_all_loose (compress NO/YES); read back '
@@ -329,8 +339,18 @@ CHECKS = {
                  samples=[dict(s0=66000, z0=50, t1=7), dict(s0=5, z0=50, t1=20)])
             for prog in (0, 1, 2) for d2 in (0, 2)
         ] + [
+            cell('gpacker_pack', 'harness.h_sched', 'gpacker_pack', (300, 900), samples=[dict(S_CRASH, clean=True), dict(S_CRASH, clean=False)],
+                 bounds=B_CRASH_Q + '; packer guarantee: rows committed only over kernel-visible pack bytes, loose files unlinked only under such rows (pack_all_loose with/without per-pack cleaning, then clean_storage)'),
+            cell('gpacker_nofsync', 'harness.h_sched', 'gpacker_nofsync', (300, 900), samples=[S_CRASH],
+                 bounds=B_CRASH_Q + '; the same with do_fsync=False (visibility to readers must not depend on the sync)'),
+            cell('gpacker_direct', 'harness.h_sched', 'gpacker_direct', (300, 900), samples=[dict(S_CRASH, nh=True), dict(S_CRASH, nh=False)],
+                 bounds=B_CRASH_Q + '; the same for direct-to-pack writes'),
             cell('writer_reach', 'harness.h_sched', 'writer_reach', (120, 300), expect='REFUTED'),
             cell('seeker_reach', 'harness.h_sched', 'seeker_reach', (120, 300), expect='REFUTED'),
+            cell('seeker2', 'harness.h_sched', 'seeker2', (400, 1200), replay_sweep={'t': list(range(1, 31))},
+                 bounds='reader of a LOOSE object that another client packs compressed and cleans at observation t in [1,30] of the read (second-chance look-up); three seek/read programs incl. seeks from the end; skip_if_missing symbolic',
+                 samples=[dict(s0=66000, z0=50, t=3, prog=2, skip=True), dict(s0=5, z0=50, t=1, prog=0, skip=False)]),
+            cell('seeker2_reach', 'harness.h_sched', 'seeker2_reach', (120, 300), expect='REFUTED'),
         ],
         functions=F_READ + ['Container.add_streamed_object', 'utils.ObjectWriter.__enter__/__exit__', 'utils._compute_hash_for_file',
                             'utils.LazyLooseStream.open_stream', 'Container.loosen_object',
@@ -341,7 +361,8 @@ CHECKS = {
                      'symbolic instant; counterexamples are replayed on the REAL file system with the same events fired by a '
                      'counting proxy around os/open/Path (instants swept, the two environments number calls differently)',
                      'rely/guarantee: the loose writers and the packer are symbolic instants t_w <= t_p < t_c < t_u per '
-                     'object (the orderings C05/C06 establish for the packer); the reader runs for real and every stat/'
+                     'object (the packer side of these orderings is what the gpacker_* cells establish on the real packer code: '
+                     'commit only over kernel-visible bytes, unlink only under a committed row); the reader runs for real and every stat/'
                      'open/SQL observation compares its own step counter with those instants; one packer run (one unlink '
                      'per key); writers under the rely are not covered; counterexamples are replayed on the real code over '
                      'the model timeline only (no real-file-system schedule replay was built)'],
@@ -417,11 +438,21 @@ CHECKS = {
                  samples=[dict(sp=5, s0=7, s1=9, q1=1, pack=True, clean=True, q2=3),
                           dict(sp=5, s0=7, s1=9, q1=2, pack=True, clean=False, q2=1)]),
             cell('handles_reach', 'harness.h_handles', 'handles_reach', (120, 300), bounds=B_HANDLES, expect='REFUTED'),
+            cell('handles_clean', 'harness.h_handles', 'handles_clean', (400, 1200),
+                 bounds='maintenance handle H has queried (q1); another handle deletes a packed object, stores it again loose and adds a new one; H runs clean_storage(vacuum symbolic) [and repack]; all handles and a new one answer every view; sizes in [1,70000]',
+                 samples=[dict(sp=66000, s0=5, q1=0, vacuum=False, repack=False), dict(sp=5, s0=7, q1=3, vacuum=True, repack=True)]),
             cell('handles3', 'harness.h_handles', 'handles3', (500, 1500),
                  bounds='three handles: H queries (q1 in {has, get, meta, list, single get, none}), A adds, B may pack/clean, H queries '
                  '(q2), A adds, B may pack (with/without per-pack cleaning)/clean, H itself adds, H queries (q3); sizes in [1,70000]',
                  samples=[dict(sp=66000, s0=5, q1=3, q2=0, q3=3, pack1=True, clean1=True, pack2=True, clean2=True),
                           dict(sp=5, s0=66000, q1=5, q2=4, q3=1, pack1=False, clean1=False, pack2=True, clean2=False)]),
+            cell('handles3_small', 'harness.h_handles', 'handles3_small', (500, 1500),
+                 bounds='as handles3 with pack_size_target = 10: every packed object in a pack of its own (several packs in the fallback look-up)',
+                 samples=[dict(sp=66000, s0=5, q1=3, q2=2, q3=2, pack1=True, clean1=True, pack2=True, clean2=True)]),
+            cell('handles3_creator', 'harness.h_handles', 'handles3_creator', (500, 1500),
+                 bounds='as handles3, the long-open handle being the one that created the container with init_container()',
+                 samples=[dict(sp=66000, s0=5, q1=3, q2=0, q3=3, pack1=True, clean1=True, pack2=True, clean2=True, small=False),
+                          dict(sp=5, s0=7, q1=0, q2=2, q3=1, pack1=True, clean1=True, pack2=False, clean2=False, small=True)]),
         ],
         functions=F_READ + ['Container.add_streamed_object', 'Container.pack_all_loose', 'Container.clean_storage',
                             'Container._close_operation_session'],
@@ -431,7 +462,7 @@ CHECKS = {
                      'longer histories are not explored'],
     ),
     'C09': dict(
-        cells=DIRECT_INV + LOOSE_INV + DIRECT_REACH + CDIRECT + IMPORT_DEDUP,
+        cells=DIRECT_INV + LOOSE_INV + DIRECT_REACH + CDIRECT + IMPORT_DEDUP + SINGLE,
         functions=F_WRITE + ['Container.import_objects', 'Container.add_streamed_object_to_pack'],
         assumptions=['duplicates of already packed content at any batch position, duplicate inside the batch (plain and '
                      'compress=True), known content re-added loose (existing copy loose/packed/both, possibly damaged, '
@@ -575,3 +606,6 @@ CHECKS = {
                      'cells, nondeterministic zlib contract); process RSS is not decided by this technique'],
     ),
 }
+
+# seeking / chunked readers of compressed objects are part of "what is read back" (C10)
+CHECKS['C10']['cells'] = CHECKS['C10']['cells'] + [c for c in CHECKS['C07']['cells'] if c['name'] in ('zseek_zero', 'zseek_back', 'zread_small')]
